@@ -33,7 +33,7 @@ pub fn by_id(id: &str) -> Option<Box<dyn Property>> {
 /// which property's oracle owns an operation name (used by the C14 router and the fuzz target)
 pub fn owner_of_op(op: &str) -> Option<Box<dyn Property>> {
     let id = match op {
-        "addsub.u" | "addsub.i" | "addsub.us" | "addsub.is" => "C01",
+        "addsub.u" | "addsub.i" | "addsub.s" => "C01",
         "mul.u" | "mul.i" | "mul.s" => "C02",
         "div.u" | "div.i" | "div.us" => "C03",
         "hist" | "ctor" => "C04",
